@@ -115,18 +115,20 @@ CutAfter(s, n) == IF n <= 0 \/ s = <<>> THEN <<>> ELSE IF IsRec(Head(s)) THEN <<
 LimitOk(cfg, ins, outs) == outs = CutAfter(ins, cfg.n)
 
 (* ---------------------------------------------------------------- lookup join ------------------------------------------------------------- *)
-Matches(cfg, row) == SelectSeq(cfg.table, LAMBDA j : ~IsNullV(row[cfg.col]) /\ ~IsNullV(j[cfg.jcol]) /\ j[cfg.jcol] = row[cfg.col])
+(* cfg.tflags[i] = TRUE: the i-th record the joined side emits is a retraction (a joined side with a trigger can retract) *)
+MatchIdx(cfg, row) == SelectSeq([i \in 1..Len(cfg.table) |-> i], LAMBDA i : ~IsNullV(row[cfg.col]) /\ ~IsNullV(cfg.table[i][cfg.jcol]) /\ cfg.table[i][cfg.jcol] = row[cfg.col])
 LookupStep(cfg, st, msg) ==
   IF IsWm(msg) THEN [st |-> st, out |-> <<msg>>]
-  ELSE [st |-> st, out |-> [i \in 1..Len(Matches(cfg, msg.v)) |-> Rec(msg.v \o Matches(cfg, msg.v)[i], msg.r, msg.t)]]
+  ELSE LET I == MatchIdx(cfg, msg.v) IN
+       [st |-> st, out |-> [k \in 1..Len(I) |-> Rec(msg.v \o cfg.table[I[k]], (msg.r /\ ~cfg.tflags[I[k]]) \/ (~msg.r /\ cfg.tflags[I[k]]), msg.t)]]
 RECURSIVE LookupBag(_, _, _)
 LookupBag(cfg, inBag, D) ==
   IF D = {} THEN <<>>
   ELSE LET r == CHOOSE x \in D : TRUE
            rest == LookupBag(cfg, inBag, D \ {r})
            RECURSIVE Add(_, _)
-           Add(b, js) == IF js = <<>> THEN b ELSE Add(BagPut(b, r \o Head(js), inBag[r]), Tail(js))
-       IN Add(rest, Matches(cfg, r))
+           Add(b, is) == IF is = <<>> THEN b ELSE Add(BagPut(b, r \o cfg.table[Head(is)], IF cfg.tflags[Head(is)] THEN -inBag[r] ELSE inBag[r]), Tail(is))
+       IN Add(rest, MatchIdx(cfg, r))
 LookupBatch(cfg, inBag) == LookupBag(cfg, inBag, DOMAIN inBag)
 
 (* ---------------------------------------------------------------- unnest ------------------------------------------------------------------ *)
